@@ -39,6 +39,10 @@ structure St where
 
 def step (st : St) (line : String) : St × String :=
   let toks := (line.trimAscii.toString.splitOn " ").filter (· ≠ "")
+  -- `ds.decodemsg @`: the message the last `ds.msg` wrote
+  let toks := if toks = ["ds.decodemsg", "@"] then
+                (match st.dump.lastMsg with | some bs => ["ds.decodemsg", toHex bs] | none => ["ds.decodemsg", "@"])
+              else toks
   if toks = ["reset"] then ({ tm := { sets := st.tm.sets } }, "ok") else
   if toks = ["own.reset"] then ({ tm := { sets := st.tm.sets } }, ownZeros) else   -- C16: what `reset` does, then the live counts
   match stepOwn st.own toks with
@@ -54,7 +58,7 @@ def step (st : St) (line : String) : St × String :=
   | some (s, o) => ({ st with ieee := s }, o)
   | none =>
   match stepCodec st.tm st.codec toks with
-  | some (t, c, o) => ({ st with tm := t, codec := c }, o)
+  | some (t, c, o) => ({ st with tm := t, codec := c, dump := d13AfterCodec st.dump toks o }, o)
   | none =>
   match stepFrame st.frame toks with
   | some (s, o) => ({ st with frame := s }, o)
